@@ -7,6 +7,6 @@ CONSTANTS
   MaxOps = 8
   EmitMode = "none"
 VIEW View
-INVARIANTS TypeOK NoOrphanKF
+INVARIANTS TypeOK NoOrphan
 PROPERTIES Ref_Stored Ref_Order Ref_Stale Ref_OnlyNow Ref_Removed
 CHECK_DEADLOCK FALSE
